@@ -294,3 +294,21 @@ func rootIsParam(v ssa.Value) bool {
 	}
 	return false
 }
+
+// RequireStore: fnRef contains a store matching one of pats.
+func (r *Run) RequireStore(rule, fnRef, name string, pats ...string) {
+	fn := r.fn(rule, fnRef)
+	if fn == nil {
+		return
+	}
+	ff := r.P.Facts(fn)
+	for _, s := range ff.StoreFacts() {
+		for _, p := range pats {
+			if glob(p, s.S) {
+				r.Check(rule, fnRef+": "+name, r.P.Pos(s.In.Pos()), true, "store: "+trunc(s.S, 200))
+				return
+			}
+		}
+	}
+	r.Check(rule, fnRef+": "+name, r.P.Pos(fn.Pos()), false, fmt.Sprintf("no store matching %v", pats))
+}
